@@ -259,6 +259,19 @@ def main() -> int:
                         pat_ = next((p_ for p_, t_ in (("N_item_data", f"{sn}_item_data"), ("N_item", f"{sn}_item"), ("json_N", f"json_{sn}"), ("N_", f"{sn}_"), ("_N", f"_{sn}"), ("Ns", f"{sn}s")) if nm_ == t_), "other")
                         vd.violation(f"runtime_merge:parameters:{parts[1]}:{pat_}", f"array query parameter {base_name!r} ({items.get('format') or items.get('type')}) next to parameters spelled like derived names: {variant}: {det}", {"doc": j["doc"], "args": a["args"], "x": a["x"]})
         ev.seen(("C09", "derived_params", base_name, str(items)))
+    # every fixed colliding group in every scope, deterministically (the random groups above only sample the product)
+    FIXED_GROUPS = [["FooBAR", "FooBar"], ["get-thing", "get_thing"], ["a-b", "a_b"], ["Abc", "abc"], ["x1", "x_1", "X1"], ["user id", "user_id", "userId", "UserID"], ["class", "class_"], ["type", "Type", "TYPE"], ["_a", "a"], ["a.b", "a b"],
+                    ["fooBar", "foo_bar"], ["startAt", "start_at", "StartAt"], ["limit", "limit "], [" sort", "sort"], ["page\t", "page"], ["a", " a ", "a  "], ["x\u00a0", "x"], ["q", "q\u2003"]]
+    for gi, group in enumerate(FIXED_GROUPS):
+        for si_, scope in enumerate(scopes):
+            if scope == "enum_members" or (scope in ("schemas", "enum_schemas", "schema_vs_inline") and any(c in n for n in group for c in "/~#%")):
+                continue
+            if quick and scope not in ("properties", "allof_inherited_properties", "allof_redeclared_properties", "params_path_item_vs_operation") and (gi + si_) % 3:
+                continue
+            pre_ = prefixes[(gi + si_) % len(prefixes)]
+            j = run.job(collision_doc(group, scope), want=["manifest", "tree"], cfg={"field_prefix": pre_, **({"generate_all_tags": True} if scope.startswith("operation_ids_multi_tag") else {})})
+            info[j["id"]] = ("collide", tuple(group), scope, pre_)
+            jobs.append(j)
     rs = run.map(jobs, timeout=300)
     for j, res in zip(jobs, rs):
         kind, X, slot, pre = info[j["id"]]
@@ -357,7 +370,8 @@ def main() -> int:
                 for fr in set(frag.values()):
                     same = [g for g in group if frag[g] == fr]
                     if len(same) > 1 and fr.rsplit("/", 1)[-1] not in diag_text:
-                        vd.violation(f"merged:reference_paths:{slot}", f"schemas {same} share the reference path {fr!r} and no diagnostic names it", w)
+                        # (component enums with equal values being mapped to one class silently is the listed mechanism merged:classes:enum_schemas)
+                        vd.violation("merged:classes:enum_schemas" if slot == "enum_schemas" else f"merged:reference_paths:{slot}", f"schemas {same} share the reference path {fr!r} and no diagnostic names it", w)
                 classes = [v["cls"] for fr, v in {frag[g]: got[g] for g in group}.items() if v and v.get("cls")]
                 undiag = [g for g, v in got.items() if not v and g not in diag_text and urlparse(f"#/components/schemas/{g}").fragment.rsplit("/", 1)[-1] not in diag_text]
                 if len(set(classes)) < len(classes):
